@@ -12,6 +12,7 @@
   * `queryLeft` is the blocking client's timeout arithmetic (`lifetime_left`, `query_left`).
 -/
 import Rsdns.Model.Client
+import Rsdns.Lemmas.Guards
 
 set_option linter.unusedVariables false
 
@@ -235,16 +236,27 @@ theorem std_timeout_never_zero (c : Cfg) (a b : Nat) :
     | .attemptOver => c.qt.getD c.lt ≤ b ∧ a < c.lt
     | .lifetimeOver => c.lt ≤ a := by
   unfold queryLeft lifetimeLeft
+  unfold Generated.std_lifetime_over Generated.std_lifetime_left Generated.std_attempt_over Generated.std_query_left
+  simp only [decide_eq_true_eq]
   by_cases h1 : a ≥ c.lt
   · simp [h1]
   · simp only [h1, if_false]
-    by_cases h2 : b < c.qt.getD c.lt
+    by_cases h2 : b ≥ c.qt.getD c.lt
     · simp only [h2, if_true]
+      exact ⟨trivial, by omega⟩
+    · simp only [h2, if_false]
       refine ⟨?_, ?_, ?_⟩
       · simp only [Nat.min_def]; split <;> omega
       · exact Nat.min_le_right _ _
       · exact Nat.min_le_left _ _
-    · simp only [h2, if_false]
-      omega
+
+/-! ### the blocking client's clock expressions regenerated from `time_left` / `query_left` -/
+
+theorem std_clock_expressions (e l t ll : Nat) :
+    (Generated.std_lifetime_over e l = true ↔ e ≥ l) ∧ Generated.std_lifetime_left e l = l - e ∧
+    (Generated.std_attempt_over e t = true ↔ e ≥ t) ∧ Generated.std_query_left e t ll = Nat.min (t - e) ll := by
+  refine ⟨?_, rfl, ?_, rfl⟩
+  · rw [std_lifetime_over_eq]; simp
+  · rw [std_attempt_over_eq]; simp
 
 end Rsdns.C15
